@@ -107,14 +107,14 @@ def replay(w):
         q = 'select count(*) from t where k >= %d' % begin
         stmts = ['create table t(k int primary key, v int)', 'create table zz_verif_dummy(z int)', 'insert into t values ' + vals, 'set mock_rowcount_zz_verif_dummy = 1',
                  q, 'pragma disable_optimizer', q]
-        for bytes_per_row in (4, 5, 8, 9):
+        for bytes_per_row in (4, 5):
             d = scratch_dir('c13m')
-            out, rc, err = rl('sql', {'engine': 'disk', 'dir': d, 'block': per_block * bytes_per_row, 'rowset': 1 << 20, 'stmts': stmts})
+            out, rc, err = rl('sql', {'engine': 'disk', 'dir': d, 'block': 16 + per_block * bytes_per_row, 'rowset': 1 << 20, 'stmts': stmts})
             shutil.rmtree(d, ignore_errors=True)
             got = [o.get('rows') for o in out if o.get('sql') == q and o.get('ok')]
-            how['tried'].append({'rows_per_block': per_block, 'block_bytes': per_block * bytes_per_row, 'pushdown_vs_full': got})
+            how['tried'].append({'rows_per_block': per_block, 'block_bytes': 16 + per_block * bytes_per_row, 'pushdown_vs_full': got})
             if len(got) == 2 and got[0] != got[1]:
-                how.update(stmts=stmts, block_bytes=per_block * bytes_per_row, range_scan=got[0], full_scan=got[1])
+                how.update(stmts=stmts, block_bytes=16 + per_block * bytes_per_row, range_scan=got[0], full_scan=got[1])
                 return {'reproduced': True, 'how': how}
     return {'reproduced': False, 'how': how}
 
